@@ -123,6 +123,8 @@ type HOp struct {
 	Accept bool `json:"accept,omitempty"`
 	// token endpoint: a client_id form parameter naming this client is sent next to the (Basic) credentials; 0 = none, n = client n-1
 	ClaimedClient int `json:"claimed_client,omitempty"`
+	// a public client identifies itself in the HTTP Basic header (empty password) instead of the client_id parameter
+	PublicBasic bool `json:"public_basic,omitempty"`
 	// advance
 	Ms int64 `json:"ms,omitempty"`
 	// setclient
@@ -215,6 +217,7 @@ type world struct {
 	issued  []issuedTok
 	epoch   time.Time
 	jwt     bool
+	pubBasic bool
 }
 
 func ms(d int64) time.Duration { return time.Duration(d) * time.Millisecond }
@@ -338,6 +341,10 @@ func (w *world) authForm(req *http.Request, form url.Values, auth int) {
 		return
 	}
 	if auth < len(w.clients) && w.clients[auth].Public {
+		if w.pubBasic {
+			req.SetBasicAuth(url.QueryEscape(clientID(auth)), "")
+			return
+		}
 		if form.Get("client_id") == "" || form.Get("grant_type") != "" {
 			form.Set("client_id", clientID(auth))
 		}
@@ -347,7 +354,7 @@ func (w *world) authForm(req *http.Request, form url.Values, auth int) {
 }
 
 func (w *world) claim(form url.Values, op *HOp) {
-	if op.ClaimedClient > 0 && op.Auth >= 0 && op.Auth < len(w.clients) && !w.clients[op.Auth].Public {
+	if op.ClaimedClient > 0 && op.Auth >= 0 && op.Auth < len(w.clients) && (!w.clients[op.Auth].Public || op.PublicBasic) {
 		form.Set("client_id", clientID(op.ClaimedClient-1))
 	}
 }
@@ -369,6 +376,7 @@ func s256(v string) string {
 
 func (w *world) exec(op *HOp) HObs {
 	ctx := context.Background()
+	w.pubBasic = op.PublicBasic
 	o := HObs{Minted: []string{}, Scopes: []string{}}
 	switch op.Kind {
 	case "authorize", "authorize_par", "push":
